@@ -114,6 +114,25 @@ CHECKS = {
          "DESIGN.md C30"),
 }
 
+CHECKS.update({
+ "C18": ("world-real", "exploration", "real watchers behind real state machines; goroutine-dump lock-cycle analysis (two dumps one second apart must show the same cycle) plus bounded-progress oracle for the refund",
+         "Real makers of both roles on both chains with the real rpc watcher / LWK Electrum watcher; grid of CSV state {not yet, exactly matured, long matured} x stimulus {cancel, invalid message, coop_close with wrong key} x {with, without concurrent block notifications and reader calls}. A call that does not return is a violation only when both dumps show the same self-deadlock (one SwapStateMachine.SendEvent twice on a goroutine blocked in Mutex.Lock) or a swap-mutex/watcher-lock ABBA pair; otherwise inconclusive. After the stimulus the refund must happen once the CSV matured.",
+         "simulated services answer instantly, so a goroutine blocked in Mutex.Lock for more than a second is not waiting for the environment; the LND chain-notifier watcher is not exercised.",
+         "DESIGN.md C18"),
+ "C19": ("world-real", "exploration", "Go race detector (go test -race, GORACE log_path, halt_on_error=0) over concurrent worlds with real watchers, retransmitters, RPC-style readers, policy/premium edits, restarts with messages in flight; reports parsed, attributed and de-duplicated by innermost peerswap frame pair",
+         "30 (quick) / 300 (thorough) worlds with two real nodes, 3 swaps, 3 concurrent delivery pumps and 5 background goroutines (blocks, readers, policy, premium, hostile messages/timers/ResendLastMessage) plus a restart with messages arriving before RecoverSwaps; the C10 concurrent channel acquisition runs in the same race build. Every DATA RACE report with a peerswap frame on both sides is a violation.",
+         "reports whose racing accesses are both inside a third-party library's own state (go-secp256k1-zkp SharedContext cache) are counted separately and are not a verdict on peerswap state; reports involving only harness frames or verif hooks fail the check as broken.",
+         "DESIGN.md C19"),
+ "C20": ("world-real", "exploration", "real rpc and Electrum watchers over chain-version-stamped facades of the chain simulator; per-report oracle over the versions the watcher can have looked at",
+         "Generated block histories (bursts, blocks/reorgs between the RPC calls of one observation pass, reorgs that unconfirm/re-confirm, stale bestblock, transient RPC errors, registration after the fact, window edges, never-broadcast tx, out-of-order headers, heights near 2^32, rejecting consumer). Every confirmation / CSV report must be true in some chain version among the watcher's recent answers; at most one accepted report per registration.",
+         "the watcher can only have looked at chain versions spanned by its last 14 (rpc) / 6 (electrum) answers; wall-clock sleeps only give the polling watcher time to run.",
+         "DESIGN.md C20"),
+ "C22": ("world-real", "exploration", "real RedundantMessenger goroutines (2 ms retry through the verif hook) observed through a decorator of the real Manager; offline oracle over the recorded send log",
+         "Real makers of both roles/chains announce the opening tx to a scripted taker; after a few retransmissions the history continues with {payment, cancel, good coop_close, wrong-key coop_close, invalid message, CSV maturity, restart} and runs >= 20 more retry intervals. Copies must be byte-identical, never more than one live retransmitter per swap, at most one copy after the first committed record in a non-waiting state.",
+         "wall-clock time only decides how many copies are observed, never the verdict rule.",
+         "DESIGN.md C22"),
+})
+
 NOT_YET = "monitor not built yet in this round; see DESIGN.md section 7 for the build order"
 
 def main():
@@ -156,7 +175,7 @@ NA = {}
 HOOK_COMMITS = ["979c0a1", "95de7f2", "9fafd20", "2176eb6"]
 ENGINES = [
  {"name": "world-det", "path": "harness/sim + harness/props", "kind_free_text": "deterministic simulated world around real swap services (chains, Lightning ledger, wallets, bus, virtual timers, crash injection at the node boundary) with online/offline monitors", "serves_properties": ["C01","C03","C04","C05","C06","C07","C08","C09","C10","C11","C12","C13","C15","C16","C17","C21","C23","C26"]},
- {"name": "world-real", "path": "harness/sim + harness/props (race build)", "kind_free_text": "real watchers/retransmitters with concurrent stimuli under the Go race detector and goroutine-dump lock-cycle analysis", "serves_properties": []},
+ {"name": "world-real", "path": "harness/sim + harness/props (race build)", "kind_free_text": "real watchers/retransmitters with concurrent stimuli under the Go race detector and goroutine-dump lock-cycle analysis", "serves_properties": ["C18","C19","C20","C22"]},
  {"name": "txlab", "path": "harness/ref/tmpl + harness/props", "kind_free_text": "script/transaction laboratory: btcd script engine, independent template interpreter, Liquid confidential transactions", "serves_properties": ["C02","C24"]},
  {"name": "model-at-runtime", "path": "harness/props", "kind_free_text": "model-based operation sequences against real components with a reference model as oracle (porcupine for concurrent histories)", "serves_properties": ["C14","C25","C27","C28","C29","C30"]},
 ]
